@@ -11,7 +11,7 @@
    Result records: [cls, kq, bq, rq, sq, pq, act]  (rq recurrent, sq state, pq pointwise quantizer). *)
 EXTENDS ModelGraph
 
-RnnKinds == {"SimpleRNN", "LSTM", "GRU"}
+RnnKinds == {"SimpleRNN", "LSTM", "GRU", "Bidirectional"}      \* Bidirectional(LSTM): both directions get the same record
 SepKinds == {"SeparableConv1D", "SeparableConv2D"}
 PoolKinds == {"AveragePooling2D", "GlobalAveragePooling2D"}
 OldKinds == WeightKinds \cup {"Activation", "ReLU", "LeakyReLU", "BatchNormalization"}
